@@ -140,6 +140,116 @@ class _Fail(Exception):
     """Raised inside the Hypothesis test so that Hypothesis shrinks the case."""
 
 
+# Shared (anonymous, inherited over fork) buffer in which a task process notes the case it is about to
+# evaluate: if the process is killed inside compiled code (SIGSEGV from a malformed sparse matrix, an
+# abort in a C extension) the parent still knows which input did it.
+_NOTE = None
+_NOTE_SIZE = 1 << 20
+
+
+def _note_current(sub_name, case, origin=None):
+    if _NOTE is None:
+        return
+    try:
+        blob = json.dumps({"sub": sub_name, "case": case, "origin": origin}, default=str).encode()
+    except Exception:  # noqa
+        return
+    if len(blob) + 8 > _NOTE_SIZE:
+        blob = json.dumps({"sub": sub_name, "case": None, "origin": origin}).encode()
+    _NOTE.seek(0)
+    _NOTE.write(len(blob).to_bytes(8, "little") + blob)
+
+
+def _read_note(buf):
+    try:
+        buf.seek(0)
+        n = int.from_bytes(buf.read(8), "little")
+        if n <= 0 or n + 8 > _NOTE_SIZE:
+            return None
+        return json.loads(buf.read(n).decode())
+    except Exception:  # noqa
+        return None
+
+
+def run_isolated(jobs_list, max_parallel, timeout_s):
+    """Run callables, each in its own forked process, at most `max_parallel` at a time.
+
+    Returns a list of ("ok", result) | ("died", exitcode, note) | ("timeout", note) in job order.  Unlike
+    multiprocessing.Pool, a child that is killed by a signal does not hang the run."""
+    import mmap
+    import multiprocessing as mp
+    from multiprocessing.connection import wait
+
+    global _NOTE
+    ctx = mp.get_context("fork")
+    results = [None] * len(jobs_list)
+    pending = list(range(len(jobs_list)))
+    running = {}
+
+    def child(fn, conn, buf):
+        global _NOTE
+        _NOTE = buf
+        try:
+            out = ("ok", fn())
+        except BaseException as e:  # noqa
+            out = ("exc", "".join(traceback.format_exception(type(e), e, e.__traceback__)))
+        try:
+            conn.send(out)
+            conn.close()
+            sys.stdout.flush()
+            sys.stderr.flush()
+        finally:
+            os._exit(0)
+
+    while pending or running:
+        while pending and len(running) < max_parallel:
+            i = pending.pop(0)
+            buf = mmap.mmap(-1, _NOTE_SIZE)
+            buf.write((0).to_bytes(8, "little"))
+            rd, wr = ctx.Pipe(duplex=False)
+            p = ctx.Process(target=child, args=(jobs_list[i], wr, buf), daemon=True)
+            p.start()
+            wr.close()
+            running[rd] = (i, p, buf, time.time())
+        ready = wait(list(running), timeout=5.0)
+        for rd in ready:
+            i, p, buf, _t = running.pop(rd)
+            try:
+                msg = rd.recv()
+            except (EOFError, OSError):
+                msg = None
+            rd.close()
+            p.join(30)
+            if msg is None:
+                results[i] = ("died", p.exitcode, _read_note(buf))
+            elif msg[0] == "ok":
+                results[i] = msg
+            else:
+                results[i] = ("exc", msg[1])
+            buf.close()
+        now = time.time()
+        for rd in [r for r, v in running.items() if now - v[3] > timeout_s]:
+            i, p, buf, _t = running.pop(rd)
+            note = _read_note(buf)
+            p.kill()
+            p.join(30)
+            rd.close()
+            buf.close()
+            results[i] = ("timeout", note)
+    return results
+
+
+def _signal_name(exitcode):
+    import signal
+
+    if exitcode is not None and exitcode < 0:
+        try:
+            return signal.Signals(-exitcode).name
+        except ValueError:
+            return f"signal {-exitcode}"
+    return f"exit status {exitcode}"
+
+
 class _Acc:
     """Accumulator of one task (sub-check x shard)."""
 
@@ -166,6 +276,7 @@ class _Acc:
         if budget is not None and time.time() - self.t0 > budget:
             self.inconclusive = True
             return None
+        _note_current(self.sub.name, case, getattr(self, "origin", None))
         try:
             with quiet():
                 out = self.sub.check(case)
@@ -337,10 +448,11 @@ def write_replay(pid, sub, viol, seed, directory=None):
     return path
 
 
-def run_single(prop: Prop, sub_name, case):
+def run_single(prop: Prop, sub_name, case, origin=None):
     """Run one case directly (no Hypothesis).  Returns None or a violation dict."""
     sub = {s.name: s for s in prop.subs}[sub_name]
     acc = _Acc(prop.pid, sub, [])
+    acc.origin = origin
     v = acc.run(case)
     if acc.harness:
         raise HarnessError(acc.harness[0])
@@ -394,12 +506,39 @@ def main_check(prop: Prop, tier: str, seed: int, only_subs=None, jobs=16):
         for sh in range(k):
             tasks.append((prop.pid, si, tier, seed, sh, k, open_entries))
 
-    ctx = mp.get_context("fork")
-    with ctx.Pool(min(jobs, max(1, len(tasks) + 1))) as pool:
-        rep_async = pool.apply_async(_replay_worker, ((replay_cases, open_entries),))
-        # longest first: order tasks round-robin over subs so shards interleave
-        results = pool.map(_worker, tasks, chunksize=1)
-        rep = rep_async.get()
+    # every task (one shard of one sub-check; the replays) runs in its own forked process
+    timeout_s = float(os.environ.get("VF_TASK_TIMEOUT", "5400" if tier == "quick" else "28800"))
+    job_fns = [lambda: _replay_worker((replay_cases, open_entries))] + [
+        (lambda t=t: _worker(t)) for t in tasks]
+    raw = run_isolated(job_fns, max(1, jobs), timeout_s)
+    results = []
+    rep = {"n": 0, "violations": [], "harness": []}
+    for idx, r in enumerate(raw):
+        what = "replays" if idx == 0 else f"{prop.subs[tasks[idx - 1][1]].name} shard {tasks[idx - 1][4]}"
+        if r[0] == "ok":
+            if idx == 0:
+                rep = r[1]
+            else:
+                results.append(r[1])
+        elif r[0] == "died":
+            note = r[2]
+            sig = _signal_name(r[1])
+            if note and note.get("case") is not None:
+                v = {"kind": f"crash:process-killed:{sig}", "tags": {},
+                     "message": f"the process evaluating this case was killed ({sig}) inside the library or a "
+                                f"compiled routine it called", "case": note["case"]}
+                if note.get("origin"):
+                    v["sub"] = note["sub"]
+                    rep["violations"].append((note["origin"], v))
+                else:
+                    violations.append((note["sub"], v, None))
+            else:
+                harness.append(f"[{what}] task process died ({sig}) before evaluating a case")
+        elif r[0] == "timeout":
+            harness.append(f"[{what}] task exceeded {timeout_s:.0f} s and was stopped (inconclusive); last case: "
+                           f"{json.dumps((r[1] or {}).get('case'), default=str)[:400]}")
+        else:
+            harness.append(f"[{what}] {r[1]}")
     n_replayed = rep["n"]
     harness += rep["harness"]
     for fn, v in rep["violations"]:
@@ -436,12 +575,23 @@ def main_check(prop: Prop, tier: str, seed: int, only_subs=None, jobs=16):
 
     # 2. known findings: re-run the recorded minimal input; print the line only while it fails
     known_lines = []
-    for ent in open_entries:
-        still = None
+    def _probe(ent):
         try:
-            still = run_single(prop, ent["sub"], ent["minimal_case"])
+            return ("v", run_single(prop, ent["sub"], ent["minimal_case"]))
         except HarnessError as e:
-            harness.append(f"[known {ent['id']}] {e}")
+            return ("h", str(e))
+
+    probes = run_isolated([(lambda e=e: _probe(e)) for e in open_entries], max(1, jobs), timeout_s)
+    for ent, r in zip(open_entries, probes):
+        still = None
+        if r[0] == "ok" and r[1][0] == "v":
+            still = r[1][1]
+        elif r[0] == "ok":
+            harness.append(f"[known {ent['id']}] {r[1][1]}")
+        elif r[0] == "died":
+            still = {"kind": "crash:process-killed"}
+        else:
+            harness.append(f"[known {ent['id']}] probe {r[0]}")
         if still is not None:
             known_lines.append(f"KNOWN-FINDING: property={prop.pid} {ent['id']}: {ent['what']}")
 
@@ -537,7 +687,7 @@ def _replay_worker(arg):
     res = {"n": 0, "violations": [], "harness": []}
     for fn, rec in replay_cases:
         try:
-            v = run_single(prop, rec["sub"], rec["case"])
+            v = run_single(prop, rec["sub"], rec["case"], origin=fn)
         except HarnessError as e:
             res["harness"].append(f"[replay {fn}] {e}")
             continue
